@@ -133,11 +133,6 @@ package resolver
 //@
 //@ # authority and additional sections of an upstream reply are not relayed with a positive answer:
 //@ # the authority section is emptied, the additional section keeps at most the request's own OPT
-//@ func (*Resolver).clearAdditional
-//@   requires resp != nil && req != nil
-//@   ensures result == resp && len(resp.Ns) == 0
-//@   ensures (len(extra) == 0 || !old(extra[0])) ==> len(resp.Extra) <= 1 && (len(resp.Extra) == 1 ==> dyntype(resp.Extra[0], *dns.OPT) && as(resp.Extra[0], *dns.OPT) == msgOPT(req) && msgOPT(req) != nil)
-//@
 //@ func (*Resolver).filterAuthorityRecords
 //@   loop 1 invariant forall j int :: {filtered[j]} 0 <= j && j < len(filtered) ==> dyntype(filtered[j], *dns.SOA) || dyntype(filtered[j], *dns.NSEC) || dyntype(filtered[j], *dns.NSEC3) || dyntype(filtered[j], *dns.RRSIG)
 //@   ensures forall j int :: {result[j]} 0 <= j && j < len(result) ==> dyntype(result[j], *dns.SOA) || dyntype(result[j], *dns.NSEC) || dyntype(result[j], *dns.NSEC3) || dyntype(result[j], *dns.RRSIG)
@@ -762,3 +757,37 @@ package resolver
 //@   assert at call internal/dnsutil.ClassifyResponse#1: arg0 == resp
 //@   assert at return#1: !result && lastret("internal/dnsutil.ClassifyResponse") != dnsutil.TypeServerFailure
 //@   assert at return#2: lastret("internal/dnsutil.ClassifyResponse") == dnsutil.TypeServerFailure && result == (lastret("middleware.IsBestEffortRecursionWork") || lastret("internal/contextutil.EffectiveError") != nil)
+
+//@ # ---- C19 ("an answer for which the authority declared a non-zero scope is served only to clients inside that scope"):
+//@ # the reply the resolver builds from an upstream response keeps what the authority said about the client subnet. The
+//@ # response's option is read BEFORE the additional section is discarded, and the OPT attached to the reply is the
+//@ # request's own only when the authority said nothing (or spoke about another subnet than the one asked about,
+//@ # RFC 7871 7.3); otherwise it is a COPY in which the authority's option - SCOPE included - replaces the request's.
+//@ # The request's own OPT is never written.
+//@ func (*Resolver).clearAdditional
+//@   abstract
+//@   nosafety all pre
+//@   # C06: the authority section is emptied; unless the caller keeps the additional section it is emptied too and the
+//@   # reply's only additional record is one OPT
+//@   assert at store dns.Msg.Ns#1: len(value) == 0 && target == resp
+//@   assert at return: result == resp
+//@   assert at call middleware/resolver.answeredSubnet#1: arg0 == resp
+//@   assert at store dns.Msg.Extra#1: calls("middleware/resolver.answeredSubnet") == 1 && len(value) == 0 && target == resp && (len(extra) == 0 || !extra[0])
+//@   assert at call middleware/resolver.withAnsweredSubnet#1: arg0 == lastret("(*github.com/miekg/dns.Msg).IsEdns0") && arg1 == lastret("middleware/resolver.answeredSubnet") && arg0 != nil
+//@   assert at append#1: len(src) == 1 && dyntype(src[0], *dns.OPT) && as(src[0], *dns.OPT) == lastret("middleware/resolver.withAnsweredSubnet")
+//@
+//@ func withAnsweredSubnet
+//@   abstract
+//@   nosafety all pre
+//@   assert at return#1: result == reqOpt && answered == nil
+//@   assert at return#2: result == reqOpt
+//@   assert at return#3: result == reqOpt && at < 0
+//@   assert at return#4: result != reqOpt && at >= 0 && answered != nil
+//@   assert at store dns.OPT.Option#1: target != reqOpt
+//@
+//@ func answeredSubnet
+//@   abstract
+//@   nosafety all pre
+//@   assert at return#1: result == nil && lastret("(*github.com/miekg/dns.Msg).IsEdns0") == nil
+//@   assert at return#2: result == subnet && ok
+//@   assert at return#3: result == nil && exhausted(1)
